@@ -14,19 +14,28 @@ def main():
     cap._vw_orig = True
     cap_err._vw_orig = True
     from zope.testrunner.runner import Runner
-    import gc
-    import threading
-    import traceback
-    import warnings
-    before = {
-        'gc_threshold': list(gc.get_threshold()), 'gc_debug': gc.get_debug(),
-        'tb_format': traceback.format_exception.__module__ + '.' + traceback.format_exception.__qualname__,
-        'tb_print': traceback.print_exception.__module__ + '.' + traceback.print_exception.__qualname__,
-        'trace': repr(sys.gettrace()), 'profile': repr(sys.getprofile()),
-        'thr_trace': repr(getattr(threading, '_trace_hook', None)),
-        'filters': [repr(f) for f in warnings.filters],
-    }
+    sys.path.insert(0, os.path.dirname(os.path.abspath(__file__)))
+    os.environ.setdefault('VW_WORLD', os.path.join(spec['dir'], 'world.json'))
+    os.environ.setdefault('VW_TRACE', os.path.join(spec['dir'], 'trace.jsonl'))
+    import worldlib
+    if spec.get('preset'):
+        # non-default initial state, so that "restored" differs from "reset to the default"
+        import gc
+        import traceback
+        import warnings
+        gc.set_threshold(701, 11, 9)
+        gc.set_debug(gc.DEBUG_UNCOLLECTABLE)
+        _fe, _pe = traceback.format_exception, traceback.print_exception
+
+        def my_format_exception(*a, **k):
+            return _fe(*a, **k)
+
+        def my_print_exception(*a, **k):
+            return _pe(*a, **k)
+        traceback.format_exception, traceback.print_exception = my_format_exception, my_print_exception
+        warnings.simplefilter('ignore', category=ResourceWarning)
     sys.stdout, sys.stderr = cap, cap_err
+    before = worldlib.snapshot()
     obs = {'aborted': None}
     runner = Runner(defaults=spec.get('defaults', []), args=['prog'] + spec['args'],
                     script_parts=spec.get('script_parts', ['-m', 'zope.testrunner']), cwd=spec.get('child_cwd', spec['dir']),
@@ -38,15 +47,8 @@ def main():
         obs['aborted'] = type(e).__name__
         obs['aborted_tb'] = tb.format_exc()[-1500:]
     obs['std_restored'] = [sys.stdout is cap, sys.stderr is cap_err]
+    after = worldlib.snapshot()
     sys.stdout, sys.stderr = real_stdout, sys.__stderr__
-    after = {
-        'gc_threshold': list(gc.get_threshold()), 'gc_debug': gc.get_debug(),
-        'tb_format': traceback.format_exception.__module__ + '.' + traceback.format_exception.__qualname__,
-        'tb_print': traceback.print_exception.__module__ + '.' + traceback.print_exception.__qualname__,
-        'trace': repr(sys.gettrace()), 'profile': repr(sys.getprofile()),
-        'thr_trace': repr(getattr(threading, '_trace_hook', None)),
-        'filters': [repr(f) for f in warnings.filters],
-    }
     obs['globals_before'] = before
     obs['globals_after'] = after
 
